@@ -9,13 +9,13 @@ Lemma errexit_test_lemma stk d infun ex s :
   ctx_ok stk d infun ex -> errexit_is_applicable stk s = errexit s && negb ex.
 Proof. intros [A _ _]. subst ex. reflexivity. Qed.
 
-Lemma errexit_sim_lemma strict n stk c s r s' d infun ex :
+Lemma errexit_sim_lemma n stk c s r s' d infun ex :
   exec_cmd n stk c s = Some (r, s') -> ctx_ok stk d infun ex ->
-  wf_cmd strict d infun c = true -> state_ok strict s ->
+  wf_cmd d infun c = true -> state_ok s ->
   forall sv, exists m, sem_cmd m d ex sv c s = Some (abs sv r s').
 Proof.
   intros H Hc Hw Hs sv.
-  destruct (sa_cmd _ _ (sim_holds strict n) _ _ _ _ _ _ _ _ H Hc Hw Hs) as (_ & _ & Hok).
+  destruct (sa_cmd _ (sim_holds n) _ _ _ _ _ _ _ _ H Hc Hw Hs) as (_ & _ & Hok).
   apply ok_some. exact (Hok sv).
 Qed.
 
